@@ -116,6 +116,12 @@ def plan(ctx, bases):
                     c.setdefault("opts", {}).update(double_refit=True, use_slice_sampler=True)
                     c.update(faults=fl, upd_faults=[], upd_double=False, tag="double_refit+slice")
                     cfgs.append(c)
+                # the reporting branch of the retry handler (gp_warnings) with the one-element spelling of noise_nudge it supports
+                for fl in ([1], [2], [1, 2]):
+                    c = copy.deepcopy(b["cfg"])
+                    c.setdefault("opts", {}).update(gp_warnings=True, noise_nudge=[1.0])
+                    c.update(faults=fl, upd_faults=[], upd_double=False, tag="warnings+nudge1")
+                    cfgs.append(c)
                 for fl in ([1], [2, 3]):
                     c = copy.deepcopy(b["cfg"])
                     c.setdefault("opts", {}).update(use_slice_sampler=True)
